@@ -63,6 +63,38 @@ theorem step (pre : Fsm) (hs : pre.state < 3) (i : Int) (now : Nat) (hn : now < 
       exact key _ hs
     simp only [if_neg hw, h0, decide_true, Bool.true_or, Bool.and_self]
 
+/-- the same when the clock moves while the call runs (`stepMappingR`: `now1` read on entry, `now2` on the second level after
+    an expiry): the decision is the one for the time of entry, whatever the second reading (the stamp: `stamp_at_entry`) -/
+theorem step_moving_clock (pre : Fsm) (hs : pre.state < 3) (i : Int) (now1 now2 : Nat) (hn : now1 < u64) (hl : pre.lastTs ≤ now1) :
+    holdsC14Step (timeoutOf X.mappingTimeouts pre.state) pre { state := (stepMappingR pre i now1 now2).state, lastTs := now1 } i now1 = true := by
+  have hd : diff64 now1 pre.lastTs = now1 - pre.lastTs := diff64_of_le _ _ hl hn
+  unfold holdsC14Step
+  by_cases hw : timeoutOf X.mappingTimeouts pre.state = 0 ∨ now1 - pre.lastTs ≤ timeoutOf X.mappingTimeouts pre.state
+  · have e := stepTimedR_within X.mappingTable X.mappingTimeouts pre i now1 now2 (by rw [hd]; exact hw)
+    unfold stepMappingR
+    rw [e]
+    simp only [if_pos hw, lookup_spec pre.state hs i, decide_true, Bool.and_self]
+  · have hx : timeoutOf X.mappingTimeouts pre.state ≠ 0 ∧ diff64 now1 pre.lastTs > timeoutOf X.mappingTimeouts pre.state := by
+      rw [hd]; constructor
+      · intro h0; exact hw (Or.inl h0)
+      · omega
+    unfold stepMappingR
+    rw [stepTimedR_expired X.mappingTable X.mappingTimeouts pre i now1 now2 hx, stepTimedAux_one_state]
+    have h0 : (lookup X.mappingTable (lookup X.mappingTable pre.state (-1)).1 (-1)).1 = 0 := by
+      have key : ∀ s' < 3, (lookup X.mappingTable (lookup X.mappingTable s' (-1)).1 (-1)).1 = 0 := by decide
+      exact key _ hs
+    simp only [if_neg hw, h0, decide_true, Bool.true_or, Bool.and_self]
+
+theorem stamp_at_entry (pre : Fsm) (i : Int) (now1 now2 : Nat) (hn : now1 < u64) (hl : pre.lastTs ≤ now1)
+    (hw : timeoutOf X.mappingTimeouts pre.state = 0 ∨ now1 - pre.lastTs ≤ timeoutOf X.mappingTimeouts pre.state) :
+    (stepMappingR pre i now1 now2).lastTs = now1 := by
+  have hd : diff64 now1 pre.lastTs = now1 - pre.lastTs := diff64_of_le _ _ hl hn
+  unfold stepMappingR
+  rw [stepTimedR_within X.mappingTable X.mappingTimeouts pre i now1 now2 (by rw [hd]; exact hw)]
+
+theorem moving_same (pre : Fsm) (i : Int) (now : Nat) : stepMappingR pre i now now = stepMapping pre i now :=
+  stepTimedR_same _ _ pre i now
+
 /-- every call stamps the time of the call -/
 theorem last_ts (pre : Fsm) (i : Int) (now : Nat) : (stepMapping pre i now).lastTs = now :=
   stepTimedAux_lastTs _ _ 1 pre i now
